@@ -121,4 +121,10 @@ def violated (i : Info) : List String :=
   (if whenSome NonEmpty i.woffDescription then [] else ["woffDescription"]) ++
   (if whenSome NonEmpty i.woffTrademark then [] else ["woffTrademark"])
 
+/-- values of the in-memory types: `u32` ppems, `u8` bit numbers, `u8` class and sub-class -/
+structure WellTyped (i : Info) : Prop where
+  gasp : ∀ l, i.gasp = some l → ∀ n ∈ l, n ≤ u32Max
+  selection : ∀ l, i.selection = some l → ∀ n ∈ l, n ≤ 255
+  familyClass : ∀ p, i.familyClass = some p → p.1 ≤ 255 ∧ p.2 ≤ 255
+
 end C13
